@@ -700,6 +700,9 @@ hwloc_distances_add_commit(hwloc_topology_t topology,
 
   /* in case we added some groups, see if we need to reconnect */
   hwloc__reconnect(topology, 0);
+  if (flags & HWLOC_DISTANCES_ADD_FLAG_GROUP)
+    /* new Groups need their total_memory, depth and symmetric_subtree attributes */
+    hwloc__update_after_groups(topology);
 
   return 0;
 
